@@ -22,6 +22,7 @@ import (
 	"time"
 
 	"github.com/gorilla/mux"
+	"github.com/gorilla/websocket"
 	clconfig "github.com/metrico/cloki-config"
 	clcfg "github.com/metrico/cloki-config/config"
 	"github.com/metrico/qryn/reader/config"
@@ -119,10 +120,10 @@ func (h *Harness) Routes() []string {
 
 // Request describes one HTTP request.
 type Request struct {
-	Method  string            `json:"method"`
-	URL     string            `json:"url"` // path + raw query
-	Header  map[string]string `json:"header,omitempty"`
-	Body    []byte            `json:"body,omitempty"`
+	Method string            `json:"method"`
+	URL    string            `json:"url"` // path + raw query
+	Header map[string]string `json:"header,omitempty"`
+	Body   []byte            `json:"body,omitempty"`
 	// CancelWhenBlocked: cancel the request context (client went away) as soon as the driver reports a parked
 	// query; CancelAfterQueries: cancel after the n-th statement was sent (0 = never).
 	CancelWhenBlocked bool `json:"cancel_when_blocked,omitempty"`
@@ -130,19 +131,19 @@ type Request struct {
 
 // Outcome of one request.
 type Outcome struct {
-	Responded   bool   `json:"responded"`   // handler returned (normally or through its own recover)
-	Status      int    `json:"status"`      // HTTP status (200 when the handler never called WriteHeader)
-	BodyLen     int    `json:"body_len"`
-	Body        []byte `json:"-"`
-	Panic       string `json:"panic,omitempty"`       // panic escaped the handler: net/http would abort the connection without a response
-	PanicSite   string `json:"panic_site,omitempty"`  // first repository frame of the panic
-	Hang        bool   `json:"hang,omitempty"`        // handler still running after the bound
-	HangSite    string `json:"hang_site,omitempty"`
-	HangBusy    bool   `json:"hang_busy,omitempty"`   // the handler goroutine was running (CPU-bound), not parked
-	Cancelled   bool   `json:"cancelled,omitempty"`   // the harness cancelled the request context
-	Leaked      []string `json:"leaked,omitempty"`    // repository functions of goroutines started during the request and still alive after the poll
-	Queries     int    `json:"queries"`
-	OpenRows    int64  `json:"open_rows,omitempty"`   // driver.Rows never closed (connection leak; reported, not part of C12)
+	Responded bool     `json:"responded"` // handler returned (normally or through its own recover)
+	Status    int      `json:"status"`    // HTTP status (200 when the handler never called WriteHeader)
+	BodyLen   int      `json:"body_len"`
+	Body      []byte   `json:"-"`
+	Panic     string   `json:"panic,omitempty"`      // panic escaped the handler: net/http would abort the connection without a response
+	PanicSite string   `json:"panic_site,omitempty"` // first repository frame of the panic
+	Hang      bool     `json:"hang,omitempty"`       // handler still running after the bound
+	HangSite  string   `json:"hang_site,omitempty"`
+	HangBusy  bool     `json:"hang_busy,omitempty"` // the handler goroutine was running (CPU-bound), not parked
+	Cancelled bool     `json:"cancelled,omitempty"` // the harness cancelled the request context
+	Leaked    []string `json:"leaked,omitempty"`    // repository functions of goroutines started during the request and still alive after the poll
+	Queries   int      `json:"queries"`
+	OpenRows  int64    `json:"open_rows,omitempty"` // driver.Rows never closed (connection leak; reported, not part of C12)
 }
 
 // Bounds used by Do; generous against µs–ms normal latency (DESIGN.md §7 worker model).
@@ -400,4 +401,68 @@ func hangSite(handlerHdr string) (string, bool) {
 		return others[0], false
 	}
 	return "", false
+}
+
+// DoTail exercises the websocket route /loki/api/v1/tail over a real loopback HTTP server (the handler needs a
+// hijackable connection): connect, read messages for `listen`, then the client goes away (close frame + TCP
+// close).  The same observations as Do apply: a handshake answer within the bound, no escaped panic, goroutine
+// census back to baseline after the client left.
+func (h *Harness) DoTail(rawQuery string, listen time.Duration) Outcome {
+	var out Outcome
+	before := Census()
+	h.Script.ResetLog()
+	var panicMu sync.Mutex
+	srv := httptest.NewServer(http.HandlerFunc(func(w http.ResponseWriter, r *http.Request) {
+		defer func() {
+			if p := recover(); p != nil {
+				panicMu.Lock()
+				out.Panic = fmt.Sprint(p)
+				out.PanicSite = firstRepoFrame(string(stackOf()))
+				panicMu.Unlock()
+				panic(http.ErrAbortHandler)
+			}
+		}()
+		h.Router.ServeHTTP(w, r)
+	}))
+	defer srv.Close()
+	url := "ws" + strings.TrimPrefix(srv.URL, "http") + "/loki/api/v1/tail?" + rawQuery
+	d := websocket.Dialer{HandshakeTimeout: ResponseBound}
+	conn, resp, err := d.Dial(url, nil)
+	if err != nil {
+		// no upgrade: an ordinary HTTP answer (or none at all)
+		if resp != nil {
+			out.Responded = true
+			out.Status = resp.StatusCode
+		} else {
+			panicMu.Lock()
+			if out.Panic == "" {
+				out.Hang = true
+				out.HangSite = "controller.QueryRangeController.Tail"
+			}
+			panicMu.Unlock()
+		}
+	} else {
+		out.Responded = true
+		out.Status = resp.StatusCode
+		deadline := time.Now().Add(listen)
+		conn.SetReadDeadline(deadline)
+		for {
+			_, msg, err := conn.ReadMessage()
+			if err != nil {
+				break
+			}
+			out.BodyLen += len(msg)
+			if len(out.Body) == 0 {
+				out.Body = msg
+			}
+		}
+		conn.WriteControl(websocket.CloseMessage, websocket.FormatCloseMessage(websocket.CloseNormalClosure, ""), time.Now().Add(time.Second))
+		conn.Close()
+		out.Cancelled = true
+	}
+	out.Queries = len(h.Script.Queries())
+	srv.CloseClientConnections()
+	out.Leaked = AwaitBaseline(before, CensusBound)
+	out.OpenRows = h.Script.OpenRows()
+	return out
 }
